@@ -60,6 +60,9 @@ void LETNStatement::unparse(Context&ctx, FILE * out) const
   fputs(":", out);
   if (_typ.level() > 0)
     fputs("table", out);
+  else if (_typ.major() == Type::COMPLEX && _typ.minor() != 0)
+    /* the type of a module is written by its name */
+    fputs(PluginManager::instance().plugged(_typ.minor()).interface.name, out);
   else
     fputs(_typ.typeName().c_str(), out);
   unparse_next(ctx, out);
